@@ -77,6 +77,13 @@ type Conn struct {
 	// Carry (point mitm-connect-reqmod): after the answer to its CONNECT the client
 	// goes on with the TLS handshake anyway instead of waiting for the close.
 	Carry bool `json:"carry,omitempty"`
+	// Tunnel (points idle-after, reqmod, roundtrip, resmod; MITM configured): the
+	// connection first opens a CONNECT tunnel and completes the TLS handshake in
+	// it; the exchanges then happen inside the established decrypted session.
+	Tunnel bool `json:"tunnel,omitempty"`
+	// Answer: the exchange in flight has an answer that cannot have a body:
+	// "head" (a HEAD request), "204", "304".
+	Answer string `json:"answer,omitempty"`
 }
 
 // Case is 1..3 connections, the order in which parked exchanges are released
@@ -271,6 +278,32 @@ func (r gatedRT) RoundTrip(req *http.Request) (*http.Response, error) {
 	return r.next.RoundTrip(req)
 }
 
+// adapt turns an absolute-form GET of request() into the origin-form used inside a
+// decrypted tunnel and/or into a HEAD request.
+func adapt(req string, tunnel, head bool) string {
+	if tunnel {
+		req = strings.Replace(req, " http://origin.test/", " /", 1)
+		req = strings.Replace(req, " http://down.test/", " /", 1)
+	}
+	if head && strings.HasPrefix(req, "GET ") {
+		req = "HEAD " + req[4:]
+	}
+	return req
+}
+
+// wantAnswer is the status and body owed to the exchange with this id.
+func wantAnswer(id string) (int, []byte) {
+	switch {
+	case strings.HasSuffix(id, "-a204"):
+		return 204, nil
+	case strings.HasSuffix(id, "-a304"):
+		return 304, nil
+	case strings.HasSuffix(id, "-ahead"):
+		return 200, nil
+	}
+	return 200, bodyFor(id)
+}
+
 func request(id string) string {
 	host := "origin.test"
 	if strings.Contains(id, "-fail") {
@@ -380,6 +413,14 @@ func runOnce(c Case, T time.Duration) (v kit.Verdict) {
 		id := r.Header.Get("X-Verif-Id")
 		b := bodyFor(id)
 		head := fmt.Sprintf("HTTP/1.1 200 OK\r\nContent-Length: %d\r\nX-Origin-Id: %s\r\n\r\n", len(b), id)
+		switch {
+		case strings.HasSuffix(id, "-a204"):
+			return netkit.Script{Raw: []byte("HTTP/1.1 204 No Content\r\nX-Origin-Id: " + id + "\r\n\r\n"), CutAt: -1}
+		case strings.HasSuffix(id, "-a304"):
+			return netkit.Script{Raw: []byte("HTTP/1.1 304 Not Modified\r\nETag: \"v1\"\r\nX-Origin-Id: " + id + "\r\n\r\n"), CutAt: -1}
+		case r.Method == "HEAD":
+			return netkit.Script{Raw: []byte(head), CutAt: -1}
+		}
 		return netkit.Script{Raw: append([]byte(head), b...), CutAt: -1}
 	}
 	var origin *netkit.Origin
@@ -390,18 +431,31 @@ func runOnce(c Case, T time.Duration) (v kit.Verdict) {
 		origin = netkit.NewOrigin(handler)
 	}
 	defer origin.Close()
-	dialer := &netkit.Dialer{Route: func(addr string) string {
-		if strings.HasPrefix(addr, "down.test") {
-			return ""
-		}
-		return origin.Addr
-	}}
 	needMITM := c.TLSListener
+	needTunnel := false
 	for _, cn := range c.Conns {
 		if strings.HasPrefix(cn.Point, "mitm-") {
 			needMITM = true
 		}
+		if cn.Tunnel && !c.TLSListener {
+			needMITM, needTunnel = true, true
+		}
 	}
+	// requests decrypted from a tunnel go upstream over TLS
+	tlsOrigin := origin
+	if needTunnel {
+		tlsOrigin = netkit.NewTLSOrigin(netkit.ServerTLS("origin.test"), handler)
+		defer tlsOrigin.Close()
+	}
+	dialer := &netkit.Dialer{Route: func(addr string) string {
+		if strings.HasPrefix(addr, "down.test") {
+			return ""
+		}
+		if needTunnel && strings.HasSuffix(addr, ":443") {
+			return tlsOrigin.Addr
+		}
+		return origin.Addr
+	}}
 	var mc *mitm.Config
 	var pool *x509.CertPool
 	if needMITM {
@@ -432,7 +486,7 @@ func runOnce(c Case, T time.Duration) (v kit.Verdict) {
 	if c.ShortTimeout {
 		p.SetTimeout(500 * time.Millisecond)
 	}
-	if c.TLSListener {
+	if c.TLSListener || needTunnel {
 		netkit.UpstreamTLS(p)
 	}
 	p.SetDial(dialer.Dial)
@@ -511,11 +565,27 @@ func runOnce(c Case, T time.Duration) (v kit.Verdict) {
 			tc.SetDeadline(time.Time{})
 			cl = &netkit.Client{Conn: tc, BR: bufio.NewReaderSize(tc, 64<<10)}
 		}
+		tunnel := cn.Tunnel && needTunnel
+		if tunnel {
+			cl.Write([]byte(fmt.Sprintf("CONNECT secure.test:443 HTTP/1.1\r\nHost: secure.test:443\r\nX-Verif-Id: tun-%d\r\n\r\n", i)))
+			if res, _, err := cl.ReadResponse("CONNECT", T); err != nil || res.Status != 200 {
+				cl.Close()
+				return kit.Failf("C07/harness/connect-not-answered-timeout", "connection %d: %v %+v", i, err, res)
+			}
+			tc := tls.Client(cl.Conn, &tls.Config{RootCAs: pool, ServerName: "secure.test"})
+			tc.SetDeadline(time.Now().Add(T))
+			if err := tc.Handshake(); err != nil {
+				cl.Close()
+				return kit.Failf("C07/harness/tls-handshake-failed-timeout", "connection %d (inside its tunnel): %v", i, err)
+			}
+			tc.SetDeadline(time.Time{})
+			cl = &netkit.Client{Conn: tc, BR: bufio.NewReaderSize(tc, 64<<10)}
+		}
 		k := &client{cl: cl, point: cn.Point, resDone: make(chan struct{}), cn: cn, method: "GET"}
 		clients = append(clients, k)
 		if strings.HasSuffix(cn.Point, "-after") {
 			id := fmt.Sprintf("warm-%d", i)
-			cl.Write([]byte(request(id)))
+			cl.Write([]byte(adapt(request(id), tunnel, false)))
 			res, _, err := cl.ReadResponse("GET", T)
 			if err != nil || res.Status != 200 || !bytes.Equal(res.Body, bodyFor(id)) {
 				return kit.Failf("C07/harness/warm-up-exchange-failed-timeout", "connection %d: %v %+v", i, err, res)
@@ -584,8 +654,16 @@ func runOnce(c Case, T time.Duration) (v kit.Verdict) {
 				switch {
 				case skip:
 					k.id, k.method = fmt.Sprintf("x%d-cskip", i), "CONNECT"
-				case cn.Point == "reqmod":
+				case cn.Point == "reqmod" || cn.Point == "resmod":
 					k.id, k.method = fmt.Sprintf("x%d-conn", i), "CONNECT"
+				}
+			}
+			if k.method == "GET" && !cn.Fail && !skip && !cn.Huge && cn.Point != "writing" {
+				switch cn.Answer {
+				case "head":
+					k.id, k.method = fmt.Sprintf("x%d-ahead", i), "HEAD"
+				case "204", "304":
+					k.id = fmt.Sprintf("x%d-a%s", i, cn.Answer)
 				}
 			}
 			if cn.Point == "writing" {
@@ -602,7 +680,7 @@ func runOnce(c Case, T time.Duration) (v kit.Verdict) {
 				}
 				cl.Write(append([]byte(fmt.Sprintf("POST http://origin.test/%s HTTP/1.1\r\nHost: origin.test\r\nX-Verif-Id: %s\r\nX-Verif-Skip: 1\r\nContent-Length: %d\r\n\r\n", k.id, k.id, cn.ReqBody)), body...))
 			} else {
-				cl.Write([]byte(request(k.id)))
+				cl.Write([]byte(adapt(request(k.id), tunnel, k.method == "HEAD")))
 			}
 			if cn.Point == "writing" {
 				// parked = the head is on the wire and the client is not reading the body
@@ -730,6 +808,40 @@ func runOnce(c Case, T time.Duration) (v kit.Verdict) {
 			close(g.release[k.id])
 			g.mu.Unlock()
 		}
+		if strings.HasSuffix(k.id, "-conn") {
+			// the answer to a CONNECT whose target can be dialled: only its head is
+			// read (behind a 200 comes the tunnel)
+			pre := "C07/connect-to-reachable-target/" + k.point + "/"
+			closeSig := pre + "timeout-connection-not-closed-after-response"
+			k.cl.Conn.SetReadDeadline(time.Now().Add(T))
+			hres, err := http.ReadResponse(k.cl.BR, &http.Request{Method: "CONNECT"})
+			switch {
+			case err != nil:
+				class := "response-missing-or-truncated"
+				if netkit.IsTimeout(err) {
+					class = "timeout-response"
+				}
+				v.Addf(pre+class, "connection %d: the CONNECT parked at %s when shutdown was requested got no answer: %v", idx, k.point, err)
+			case hres.StatusCode != 200 && hres.StatusCode/100 != 5:
+				// (200 and then nothing, or a refusal: the statement does not say which)
+				v.Addf(pre+"wrong-response", "connection %d (%s): status %d", idx, k.point, hres.StatusCode)
+			case k.point == "reqmod":
+				// nothing had been dialled when shutdown began
+				if !hres.Close {
+					v.Addf(pre+"response-not-marked-close", "connection %d (%s): the answer (%d) completed during shutdown carries no Connection: close", idx, k.point, hres.StatusCode)
+				}
+				if _, eof, eerr := k.cl.ExpectEOF(patience(closeSig, T)); !eof {
+					v.Addf(closeSig, "connection %d (%s): the CONNECT in flight at shutdown was answered %d and the connection then stays open: %v", idx, k.point, hres.StatusCode, eerr)
+				}
+			default:
+				// (parked in the response modifier the tunnel's upstream connection
+				// existed before shutdown began; what becomes of such a tunnel is not
+				// demanded here: the client hangs up)
+			}
+			k.cl.Close()
+			parkedLeft--
+			continue
+		}
 		method := k.method
 		if k.point == "uploading" {
 			method = "POST"
@@ -755,6 +867,10 @@ func runOnce(c Case, T time.Duration) (v kit.Verdict) {
 			pre = "C07/exchange-on-shaped-listener/" + k.point + "/"
 		}
 		switch {
+		case k.cn.Answer != "" && strings.Contains(k.id, "-a"):
+			pre = "C07/exchange-with-header-only-answer/" + k.point + "/"
+		case k.cn.Tunnel && needTunnel:
+			pre = "C07/exchange-inside-mitm-session/" + k.point + "/"
 		case strings.HasSuffix(k.id, "-cskip"):
 			pre = "C07/connect-with-skipped-round-trip/" + k.point + "/"
 		case strings.HasSuffix(k.id, "-conn"):
@@ -799,8 +915,8 @@ func runOnce(c Case, T time.Duration) (v kit.Verdict) {
 				if res.Status != 200 {
 					v.Addf(pre+"wrong-response", "connection %d (%s): status %d", idx, k.point, res.Status)
 				}
-			} else if res.Status != 200 || !bytes.Equal(res.Body, bodyFor(k.id)) {
-				v.Addf(pre+"wrong-response", "connection %d (%s): status %d, body %s", idx, k.point, res.Status, kit.Diff(bodyFor(k.id), res.Body))
+			} else if ws, wb := wantAnswer(k.id); res.Status != ws || !bytes.Equal(res.Body, wb) {
+				v.Addf(pre+"wrong-response", "connection %d (%s): status %d (want %d), body %s", idx, k.point, res.Status, ws, kit.Diff(wb, res.Body))
 			}
 			if k.point != "writing" && !res.Close {
 				v.Addf(pre+"response-not-marked-close", "connection %d (%s): the response completed during shutdown carries no Connection: close", idx, k.point)
@@ -1002,6 +1118,13 @@ func genCase(t *rapid.T) Case {
 					cn.Huge, cn.Size = true, 0
 				}
 			}
+			if !cn.Fail && !cn.Skip && !cn.Connect && !cn.Huge && rapid.IntRange(0, 5).Draw(t, "header_only") == 0 {
+				cn.Answer, cn.Size = rapid.SampledFrom([]string{"head", "204", "304"}).Draw(t, "answer"), 0
+			}
+		}
+		switch cn.Point {
+		case "idle-after", "reqmod", "roundtrip", "resmod":
+			cn.Tunnel = rapid.IntRange(0, 5).Draw(t, "tunnel") == 0
 		}
 		c.Conns = append(c.Conns, cn)
 	}
@@ -1055,6 +1178,18 @@ func normalize(c *Case) {
 	for _, cn := range c.Conns {
 		if strings.HasPrefix(cn.Point, "mitm-") {
 			mitmCase = true
+		}
+	}
+	for i := range c.Conns {
+		cn := &c.Conns[i]
+		if cn.Tunnel {
+			if c.TLSListener {
+				cn.Tunnel = false
+			} else {
+				// (inside the session: ordinary exchanges, possibly failing or header-only)
+				mitmCase = true
+				cn.Connect, cn.Skip, cn.ReqBody, cn.Withheld, cn.Huge, cn.Pipelined = false, false, 0, false, false, false
+			}
 		}
 	}
 	for i := range c.Conns {
@@ -1135,6 +1270,12 @@ func classes(c Case) []string {
 			if c.Shaped && c.NewDuring {
 				set["shaped+in-flight-response>4KiB+listener-closed-early"] = true
 			}
+		}
+		if cn.Tunnel {
+			set["inside-established-mitm-session"] = true
+		}
+		if cn.Answer != "" {
+			set["in-flight-header-only-answer"] = true
 		}
 		if cn.Skip {
 			set["in-flight-round-trip-skipped"] = true
@@ -1228,6 +1369,9 @@ func TestEdgeShapes(t *testing.T) {
 		{Point: "mitm-connect-reqmod"}, {Point: "mitm-connect-reqmod", Carry: true}, {Point: "mitm-awaiting-hello"},
 		{Point: "mitm-idle-tunnel"}, {Point: "mitm-half-hello"},
 		{Point: "idle-fresh"}, {Point: "head-fresh"},
+		{Point: "resmod", Connect: true},
+		{Point: "reqmod", Answer: "head"}, {Point: "roundtrip", Answer: "204"}, {Point: "resmod", Answer: "304"},
+		{Point: "reqmod", Tunnel: true}, {Point: "roundtrip", Tunnel: true, Size: 70000}, {Point: "resmod", Tunnel: true, Answer: "204"}, {Point: "idle-after", Tunnel: true},
 	}
 	propEdges.Enumerate(t, func(yield func(Case) bool) {
 		for _, sh := range shapes {
